@@ -185,7 +185,7 @@ class BuildGen:
         calls = []
         n = lambda k: rnd.randrange(0, max(1, int(k * size)) + 1)
         if rnd.random() < 0.5:
-            calls.append("set_version/%d/%d" % (rnd.choice([1, 1, 2]), rnd.randrange(7)))
+            calls.append("set_version/%d/%d" % (rnd.choice([1, 1, 2, 0, 16, 255]), rnd.choice([rnd.randrange(7), 15, 16, 17, 128, 255])))
         sect = [m for m in self.by_sink.get("section", []) if m["name"] not in skip]
         dedup = [m for m in self.by_sink.get("dedup", []) if m["name"] not in skip]
         block = [m for m in self.by_sink.get("block", []) if m["name"] not in skip and m["opname"] not in ("Phi",)]
